@@ -291,15 +291,26 @@ Fixpoint ins_link (x : key * N) (l : list (key * N)) : list (key * N) :=
   end.
 Definition sort_links (l : list (key * N)) : list (key * N) := fold_right ins_link [] l.
 
-Fixpoint load (fuel : nat) (m : flatmap) (x : key) : option tree :=
+(* The loader registers every entity once: an identifier already registered (seen) is not loaded again and is not
+   attached to a second parent (Workspace.fetch_children: `get_entity(uid)` finds it, load_entity is skipped).
+   Children are visited depth-first, in HDF5 name order.  Returns the subtree and the registered identifiers. *)
+Fixpoint load (fuel : nat) (m : flatmap) (seen : list key) (x : key) : option (tree * list key) :=
   match fuel with
   | O => None
   | S fuel' =>
       match fget x m with
       | None => None
       | Some n =>
-          Some (Node x (fattrs n)
-                  (flat_map (fun '(c, _) => match load fuel' m c with Some t => [t] | None => [] end) (sort_links (flinks n))))
+          let '(kids, seen') :=
+            fold_left (fun (acc : list tree * list key) (l : key * N) =>
+                         let '(ks, sn) := acc in
+                         if mem_key (fst l) sn then (ks, sn)
+                         else match load fuel' m sn (fst l) with
+                              | Some (t, sn') => (ks ++ [t], sn')
+                              | None => (ks, sn)
+                              end)
+                      (sort_links (flinks n)) ([], x :: seen) in
+          Some (Node x (fattrs n) kids, seen')
       end
   end.
 
@@ -314,8 +325,8 @@ Definition do_reopen (w : ws) : ws * outcome :=
   let w1 := close_file w in
   match rootlink (wfile w1) with
   | Some (r, _) =>
-      match load (S (length (flat (wfile w1)))) (flat (wfile w1)) r with
-      | Some t => ({| wmem := t; wfile := wfile w1; wpend := [] |}, Done)
+      match load (S (length (flat (wfile w1)))) (flat (wfile w1)) [] r with
+      | Some (t, _) => ({| wmem := t; wfile := wfile w1; wpend := [] |}, Done)
       | None => (w1, Raised)
       end
   | None => (w1, Raised)
